@@ -74,6 +74,8 @@ Definition pool_coerce (name : string) (v : value) : option ures :=
   else if String.eqb name "none" then Some (UOk VNone)
   else if String.eqb name "fail" then Some (URaise ValueError)
   else if String.eqb name "keyfail" then Some (URaise KeyError)
+  else if String.eqb name "failrt" then Some (URaise RuntimeError)
+  else if String.eqb name "failattr" then Some (URaise AttributeError)
   else if String.eqb name "prefix_x" then
     Some (match v with
           | VStr s => UOk (VStr ("x" ++ s))
@@ -118,7 +120,11 @@ Definition pool_setter (name : string) (doc : list (key * value)) : option ures 
            | None =>
                match strip_prefix "rdk_" name with
                | Some fs => Some (match read_fields doc fs [] with UOk _ => URaise KeyError | r => r end)
-               | None => None
+               | None =>
+                   match strip_prefix "rdr_" name with
+                   | Some fs => Some (match read_fields doc fs [] with UOk _ => URaise RuntimeError | r => r end)
+                   | None => None
+                   end
                end
            end
        end.
